@@ -508,9 +508,11 @@ func configs(r *evid.Run) []config {
 			{Max: 512, Sizes: []int{1, 80, 243, 244, 245, 499, 500}, MaxStores: 4},
 		}
 	}
+	// quick: the small limit with up to 3 stores (two boundary blocks already roll a file over),
+	// the larger limit (sizes 245, 255, 600 need it) with up to 2 stores
 	return []config{
-		{Max: 256, Sizes: []int{1, 80, 84, 243, 244}, MaxStores: 4},
-		{Max: 768, Sizes: []int{1, 84, 245, 255, 600, 755, 756}, MaxStores: 3},
+		{Max: 256, Sizes: []int{1, 80, 84, 243, 244}, MaxStores: 3},
+		{Max: 768, Sizes: []int{1, 84, 245, 255, 600, 755, 756}, MaxStores: 2},
 	}
 }
 
